@@ -28,7 +28,7 @@ FINDERS = [
     (r'utf8byte|create_milestones', 'find_utf8'),
     (r'TextSelectionIter', 'find_index_walk'),
     (r'RelationMap|RelationBTreeMap|StoreCallbacks<(Annotation|AnnotationData|DataKey|TextResource|AnnotationDataSet)>|StoreFor<(AnnotationData|DataKey)>|preremove__unindex|AnnotationDataSet::|Annotation::remove_data|AnnotationStore::remove_data|AnnotationStore::remove_key', 'find_store_consistency'),
-    (r'init_textseliters|next_textselection|FindTextSelectionsIter|TextResource::iter|vx_inserted_c', 'find_related_text'),
+    (r'init_textseliters|next_textselection|FindTextSelectionsIter|TextResource::iter|vx_inserted_c|known_textselection', 'find_related_text'),
 ]
 
 
